@@ -151,6 +151,9 @@ func amountClass(r *rand.Rand, max *big.Int) string {
 }
 
 func fractionClass(r *rand.Rand) string {
+	if r.Intn(150) == 0 {
+		return dec(1, 1)
+	}
 	switch r.Intn(8) {
 	case 0:
 		return dec(1, 10000)
@@ -163,7 +166,7 @@ func fractionClass(r *rand.Rand) string {
 	case 4:
 		return dec(1, 2)
 	case 5:
-		return dec(1, 1)
+		return dec(9, 10)
 	default:
 		x := new(big.Int).Rand(r, e18)
 		x.Add(x, big.NewInt(1))
@@ -244,12 +247,10 @@ func (w *World) genOp(r *rand.Rand, c Config) Action {
 	x := r.Intn(100)
 	switch {
 	case x < 28:
-		u, d := w.randUser(r), w.randDenom(r)
-		bal := w.App.BankKeeper.GetBalance(w.Ctx, w.AccAddr(u), denomName(d)).Amount.BigInt()
-		return Action{Kind: "delegate", U: u, V: w.randVal(r), D: d, Amt: amountClass(r, bal)}
+		return w.genDelegate(r)
 	case x < 43:
 		if len(ps) == 0 {
-			return Action{Kind: "claim", U: w.randUser(r), V: w.randVal(r), D: w.randDenom(r)}
+			return w.genDelegate(r)
 		}
 		p := pick(r, ps)
 		bal := w.balanceOf(p).BigInt()
@@ -257,14 +258,20 @@ func (w *World) genOp(r *rand.Rand, c Config) Action {
 		return Action{Kind: "undelegate", U: p.u, V: p.v, D: p.d, Amt: amt}
 	case x < 55:
 		if len(ps) == 0 {
-			return Action{Kind: "claim", U: w.randUser(r), V: w.randVal(r), D: w.randDenom(r)}
+			return w.genDelegate(r)
 		}
 		p := pick(r, ps)
 		bal := w.balanceOf(p).BigInt()
 		dst := w.randVal(r)
+		if dst == p.v && r.Intn(20) != 0 {
+			dst = int64(ValBase + (int(p.v-ValBase)+1+r.Intn(len(w.Vals)-1))%len(w.Vals))
+		}
 		return Action{Kind: "redelegate", U: p.u, V: p.v, V2: dst, D: p.d, Amt: w.withdrawAmount(r, bal)}
 	case x < 65:
-		if len(ps) == 0 || r.Intn(10) == 0 {
+		if len(ps) == 0 {
+			return w.genDelegate(r)
+		}
+		if r.Intn(25) == 0 {
 			return Action{Kind: "claim", U: w.randUser(r), V: w.randVal(r), D: w.randDenom(r)}
 		}
 		p := pick(r, ps)
@@ -293,13 +300,19 @@ func (w *World) genOp(r *rand.Rand, c Config) Action {
 	case x < 95:
 		return Action{Kind: pick(r, []string{"jail", "unjail"}), V: int64(ValBase + r.Intn(len(w.Vals)))}
 	default:
-		return Action{Kind: "claim", U: w.randUser(r), V: w.randVal(r), D: w.randDenom(r)}
+		return w.genDelegate(r)
 	}
 }
 
+func (w *World) genDelegate(r *rand.Rand) Action {
+	u, d := w.randUser(r), w.randDenom(r)
+	bal := w.App.BankKeeper.GetBalance(w.Ctx, w.AccAddr(u), denomName(d)).Amount.BigInt()
+	return Action{Kind: "delegate", U: u, V: w.randVal(r), D: d, Amt: amountClass(r, bal)}
+}
+
 func (w *World) withdrawAmount(r *rand.Rand, bal *big.Int) string {
-	switch r.Intn(8) {
-	case 0, 1, 2:
+	switch r.Intn(16) {
+	case 0, 1, 2, 8, 9:
 		return bal.String()
 	case 3:
 		return new(big.Int).Add(bal, big.NewInt(1)).String()
@@ -326,27 +339,62 @@ func (w *World) withdrawAmount(r *rand.Rand, bal *big.Int) string {
 
 func (w *World) genGov(r *rand.Rand, c Config) Action {
 	signer := int64(Authority)
-	if r.Intn(6) == 0 {
+	if r.Intn(8) == 0 {
 		signer = w.randUser(r)
 	}
-	decs := []string{"0", dec(1, 10), dec(1, 2), dec(1, 1), dec(2, 1), dec(5, 1), "", "-1", "1", dec(999, 1000), dec(101, 100), dec(99, 100)}
-	switch r.Intn(8) {
+	bad := r.Intn(4) == 0 // one quarter of the governance traffic is malformed
+	weights := []string{"0", dec(1, 10), dec(1, 2), dec(1, 1), dec(2, 1), dec(1, 3), dec(3, 100)}
+	los := []string{"0", "0", dec(1, 100)}
+	his := []string{dec(5, 1), dec(5, 1), dec(10, 1), dec(2, 1)}
+	takes := []string{"0", "0", dec(1, 100), dec(1, 2), dec(1, 1000000), dec(1, 10)}
+	rates := []string{dec(1, 1), dec(1, 1), dec(99, 100), dec(1, 2), dec(101, 100)}
+	ivs := []int64{0, int64(time.Hour), int64(10 * time.Minute), int64(time.Minute)}
+	if bad {
+		weights = append(weights, "", "-1", dec(100, 1), "1")
+		los = append(los, "", "-1", dec(3, 1))
+		his = append(his, "", "-1", "0")
+		takes = append(takes, "", "-1", dec(1, 1), dec(2, 1), dec(999, 1000))
+		rates = append(rates, "", "0", "-1", dec(2, 1))
+		ivs = append(ivs, -1, 1)
+	}
+	ids := w.assetIDs()
+	free := []int64{}
+	for _, d := range []int64{1, 2, 3} {
+		used := false
+		for _, x := range ids {
+			if x == d {
+				used = true
+			}
+		}
+		if !used {
+			free = append(free, d)
+		}
+	}
+	switch r.Intn(10) {
 	case 0, 1:
-		return Action{Kind: "create", U: signer, D: pick(r, []int64{1, 2, 3, 3, 2}), W: pick(r, decs), Lo: pick(r, []string{"0", "0", dec(1, 10), ""}),
-			Hi: pick(r, []string{dec(5, 1), dec(1, 1), dec(10, 1), ""}), Take: pick(r, decs), Rate: pick(r, []string{dec(1, 1), dec(99, 100), dec(1, 2), "0", ""}),
-			Iv: pick(r, []int64{0, int64(time.Hour), int64(time.Minute), -1})}
-	case 2, 3, 4, 5:
-		return Action{Kind: "update", U: signer, D: w.randDenom(r), W: pick(r, decs), Lo: pick(r, []string{"0", "0", dec(1, 10), ""}),
-			Hi: pick(r, []string{dec(5, 1), dec(1, 1), dec(10, 1), ""}), Take: pick(r, []string{"0", dec(1, 100), dec(1, 2), dec(1, 1), "", dec(1, 1000000)}),
-			Rate: pick(r, []string{dec(1, 1), dec(1, 1), dec(99, 100), dec(1, 2), "0", "", dec(101, 100)}),
-			Iv:   pick(r, []int64{0, int64(time.Hour), int64(10 * time.Minute), -1})}
-	case 6:
+		d := pick(r, []int64{1, 2, 3})
+		if len(free) > 0 && r.Intn(5) != 0 {
+			d = pick(r, free)
+		}
+		if bad && r.Intn(6) == 0 {
+			d = -1
+		}
+		return Action{Kind: "create", U: signer, D: d, W: pick(r, weights), Lo: pick(r, los), Hi: pick(r, his), Take: pick(r, takes), Rate: pick(r, rates), Iv: pick(r, ivs)}
+	case 2, 3, 4, 5, 6:
+		return Action{Kind: "update", U: signer, D: w.randDenom(r), W: pick(r, weights), Lo: pick(r, los), Hi: pick(r, his), Take: pick(r, takes), Rate: pick(r, rates), Iv: pick(r, ivs)}
+	case 7:
 		return Action{Kind: "delete", U: signer, D: w.randDenom(r)}
 	default:
 		last := ""
 		if r.Intn(2) == 0 {
 			last = fmt.Sprint(w.Ctx.BlockTime().UnixNano() - int64(r.Intn(3))*c.Interval)
 		}
-		return Action{Kind: "params", U: signer, Iv: pick(r, []int64{0, int64(time.Hour), -1}), Iv2: pick(r, []int64{int64(time.Minute), int64(5 * time.Minute), int64(time.Hour), -1}), Last: last}
+		ivals := []int64{int64(time.Minute), int64(5 * time.Minute), int64(time.Hour)}
+		delays := []int64{0, int64(time.Hour)}
+		if bad {
+			ivals = append(ivals, -1, 0, 1)
+			delays = append(delays, -1)
+		}
+		return Action{Kind: "params", U: signer, Iv: pick(r, delays), Iv2: pick(r, ivals), Last: last}
 	}
 }
